@@ -19,17 +19,20 @@ def run(ctx):
             {"post_yields": True, "line_level": LINE_FUNCS}]
     if not ctx.quick:
         opts.append({"post_yields": True, "transport": "socket", "chunking": "random"})
-    jobs = gc.jobs_for(progs, 12 if ctx.quick else 120, 5 if ctx.quick else 40, ctx.seed, opts)
-    res = gc.run_and_judge(ctx, jobs, ["C07."], lambda evs: any(e["ev"] == "fin" and e["op"] == "6" for e in evs), (lambda r, vd: {"C07.remote-error-swallowed-after-last-message": "error-after-last-message", "C07.callback-error-during-setcallback-drain-not-reported": "callback-raises-during-setcallback-drain"}.get(vd)))
+    jobs = gc.jobs_for(progs, 24 if ctx.quick else 120, 10 if ctx.quick else 40, ctx.seed, opts)
+    # preemption-bounded systematic search (every schedule with <= 1 preemption, yields before and after each operation)
+    searches = [(p, 1, 250 if ctx.quick else 6000, {"post_yields": True}) for p in progs[: 6 if ctx.quick else 14]]
+    res = gc.run_and_judge(ctx, jobs, ["C07."], lambda evs: any(e["ev"] == "fin" and e["op"] == "6" for e in evs), (lambda r, vd: {"C07.remote-error-swallowed-after-last-message": "error-after-last-message", "C07.callback-error-during-setcallback-drain-not-reported": "callback-raises-during-setcallback-drain"}.get(vd)), searches=searches)
     gwrun.close_pool()
     ctx.coverage.update({
         "states": mc["states"], "transitions": mc["transitions"],
         "traces_validated_against_impl": res["distinct"], "evaluations": res["runs"], "distinct_nontrivial": res["nontrivial"],
         "rule": "failures at every position of generated item streams: raising remote bodies and raising callbacks on either side, channel object alive or dropped, a sibling channel with traffic, hasreceiver() probes; run on the real Gateway + WorkerGateway pair over real Popen2IO/SocketIO with scripted pipes under seeded random / PCT / "
-                "non-preemptive schedules, yielding before and after every synchronisation and IO operation and, in a quarter of the runs, before "
+                "non-preemptive schedules and a preemption-bounded systematic search (<= 1 preemption) for the first programs, yielding before and after every synchronisation and IO operation and, in a quarter of the runs, before "
                 "every source line of " + ", ".join(LINE_FUNCS) + "; distinct by event trace; non-trivial = a CHANNEL_CLOSE_ERROR frame was dispatched",
         "samples": [res["sample"]], "programs": len(progs), "verdict_histogram": res["hist"],
         "other_property_rejections": res["other_property_rejections"], "tlc": mc["detail"],
+        "bounded_search": {"programs": res["bounded_searches"], "runs": res["bounded_search_runs"], "finished_exhaustively": res["bounded_searches_finished"]},
     })
     ctx.assumptions += gc.ASSUMPTIONS
     return "model_checking"
